@@ -143,8 +143,8 @@ const CyclicRepr = "<value that contains itself>"
 func Cyclic(v object.PanObject) bool { return cyclic(v, map[object.PanObject]bool{}, 0) }
 
 func cyclic(v object.PanObject, onPath map[object.PanObject]bool, depth int) bool {
-	if v == nil || depth > 200 {
-		return depth > 200
+	if v == nil || depth > 1000000 {
+		return false // deep but (so far) not self-containing; a cycle is reported only when a container is met on its own path
 	}
 	var kids []object.PanObject
 	switch x := v.(type) {
